@@ -11,6 +11,7 @@ import GqlModel.Validate.Rules.NoFragmentCycles
 import GqlModel.Validate.Rules.NoUndefinedVariables
 import GqlModel.Validate.Rules.NoUnusedFragments
 import GqlModel.Validate.Rules.NoUnusedVariables
+import GqlModel.Validate.Rules.OverlappingFieldsCanBeMerged
 import GqlModel.Validate.Rules.PossibleFragmentSpreads
 import GqlModel.Validate.Rules.ProvidedRequiredArguments
 import GqlModel.Validate.Rules.ScalarLeafs
@@ -31,7 +32,7 @@ import GqlModel.Validate.Rules.VariablesInAllowedPosition
   initialisation of `validator/rules`: one `init()` per file, files in file-name order (the order
   in which the go tool presents them to the compiler).  The extractor regenerates this list (F4).
 
-  To add a rule (e.g. OverlappingFieldsCanBeMerged): write `Rules/<Name>.lean` defining a `Rule`,
+  To add a rule: write `Rules/<Name>.lean` defining a `Rule`,
   import it here and add it to `modelledRules`.
 -/
 namespace Gql.Validate
@@ -53,7 +54,7 @@ def modelledRules : List Rule :=
   [ fieldsOnCorrectType, fragmentsOnCompositeTypes, knownArgumentNames, knownDirectives,
     knownFragmentNames, knownRootType, knownTypeNames, loneAnonymousOperation,
     maxIntrospectionDepth, noFragmentCycles, noUndefinedVariables, noUnusedFragments,
-    noUnusedVariables, possibleFragmentSpreads,
+    noUnusedVariables, overlappingFieldsCanBeMerged, possibleFragmentSpreads,
     providedRequiredArguments, scalarLeafs, singleFieldSubscriptions, uniqueArgumentNames,
     uniqueDirectivesPerLocation, uniqueFragmentNames, uniqueInputFieldNames,
     uniqueOperationNames, uniqueVariableNames, valuesOfCorrectType, variablesAreInputTypes,
@@ -63,8 +64,7 @@ def modelledRules : List Rule :=
 
 def ruleByName (n : String) : Option Rule := modelledRules.find? fun r => r.name == str n
 
-/-- the default rule set as far as it is modelled (everything but OverlappingFieldsCanBeMerged
-    until that rule is added) -/
+/-- the default rule set (all 27 default rules are modelled) -/
 def defaultRules : List Rule := defaultRuleNames.filterMap ruleByName
 
 end Gql.Validate
